@@ -899,6 +899,21 @@ def fam_regress(tier, seed):
              "then": [{"do": "sleep", "us": 700 * MS}]},
             {"when": {"i": "A", "kind": "create", "src": "acq", "nth": 7, "phase": "pre"}, "do": "noop",
              "then": [{"do": "sleep", "us": 700 * MS}]}], "regress", 16 * Hh + 2 * S, lat=10 * MS, watch=20 * MS))
+        # 34. a late notification of the deposed leader's last refresh is handled by the watch loop while another goroutine of
+        #     the same instance stands inside its promotion (gate in the transition metric): the new leader is not disturbed
+        Hw = 1 * S
+        out.append(scn("reg-late-notification-inside-promotion-%d" % k, seed * 1000 + k, Hw, 3.0,
+                       [inst("A", prio=5, takeover=True, gate_trans_to="LEADER", gate_trans_nth=2), inst("B", prio=1)], [
+            {"at": 0, "do": "start", "i": "A"}, {"at": 300 * MS, "do": "start", "i": "B"},
+            # A leaves its record behind and is started again: a follower with a watch loop (its own stale record is not taken over)
+            {"at": 1500 * MS, "do": "stop", "i": "A"}, {"at": 1700 * MS, "do": "start", "i": "A"},
+            # after the expiry B wins the vacancy (A's Create reaches the store late) ...
+            {"when": {"i": "A", "kind": "create", "src": "acq", "nth": 7, "phase": "pre"}, "do": "noop", "then": [{"do": "sleep", "us": 300 * MS}]},
+            # ... and the notification of B's record reaches A only while A stands inside its promotion (take-over of B's record)
+            # (ordinals of deliveries count by two: the third delivery to A is number 6)
+            {"when": {"i": "A", "kind": "deliver", "nth": 6, "phase": "pre"}, "do": "noop",
+             "then": [{"do": "sleep", "us": rng.choice([550, 650]) * MS}, {"do": "release_gate", "i": "A"}], "release": "now"},
+            ], "regress", 14 * Hw, lat=10 * MS, watch=20 * MS))
         # 19. a heartbeat tick held by a hanging health check while the leader is preempted and, as a follower, observes its
         #     successor's next refresh: when the check returns the tick must not go on to the Update
         out.append(scn("reg-hanging-check-across-preemption-%d" % k, seed * 1000 + k, H1, 5.0,
